@@ -280,6 +280,43 @@ def _copy_db(root: str, dest: str) -> str:
     return os.path.join(dest, "graph.db")
 
 
+def sample_points(ref: e3.BuildResult, rng: random.Random, n: int) -> list:
+    """n crash points of a reference build: the windows that matter most first (one each), then
+    up to two file-system stages, then a uniform sample of the remaining commit points.
+      * before the commit of a hash job that follows the completion of a step: the declaring step
+        is done, its newly declared static file is still UNCONFIRMED (stray UNCONFIRMED row);
+      * after a dispatch commit: a step is RUNNING/CHECKING, its command has not started;
+      * before a writing completion commit: the command ran to the end, nothing of it is recorded;
+      * after the first cleanup commits (revert_optional_steps, Builder.finalize)."""
+    cps = ref.commit_points
+    picks = []
+
+    def add(p):
+        if p not in picks:
+            picks.append(p)
+
+    for k in range(2, len(cps) + 1):
+        if cps[k - 1][0] == "Executor._run_hash_job" and cps[k - 2][0] == "Executor.execute_job":
+            add({"kind": "commit", "k": k, "when": "before"})
+            break
+    cand = [k for k in range(1, len(cps) + 1) if cps[k - 1][0] == "Scheduler.pop_next_job" and cps[k - 1][1]]
+    if cand:
+        add({"kind": "commit", "k": rng.choice(cand), "when": "after"})
+    cand = [k for k in range(1, len(cps) + 1) if cps[k - 1][0] == "Executor.execute_job" and cps[k - 1][1]]
+    if cand:
+        add({"kind": "commit", "k": rng.choice(cand), "when": "before"})
+    for site in ("revert_optional_steps", "Builder.finalize"):
+        cand = [k for k in range(1, len(cps) + 1) if cps[k - 1][0] == site and cps[k - 1][1]]
+        if cand:
+            add({"kind": "commit", "k": cand[0], "when": "after"})
+    stages = [{"kind": "stage", "k": k} for k in range(1, len(ref.stage_points) + 1)]
+    for p in rng.sample(stages, min(2, len(stages))):
+        add(p)
+    rest = [p for p in points_of(ref) if p not in picks and p["kind"] == "commit"]
+    rng.shuffle(rest)
+    return (picks + rest)[:max(n, 0)]
+
+
 def inspect_db(root: str) -> dict:
     """Facts about the database a killed director left behind (read from copies)."""
     out = {"exists": False}
@@ -486,10 +523,7 @@ def run_job(job: dict) -> dict:
             pts = job["points"]
         elif job.get("sample") is not None:
             rng = random.Random(f"c05-pts-{case['name']}-{case['seed']}-{job.get('seed', 0)}")
-            stages = [p for p in pts if p["kind"] == "stage"]
-            commits = [p for p in pts if p["kind"] == "commit"]
-            take = rng.sample(stages, min(3, len(stages)))
-            pts = take + rng.sample(commits, min(job["sample"] - len(take), len(commits)))
+            pts = sample_points(ref, rng, job["sample"])
         results = [check_point(case, snap, project, ref, pt) for pt in pts]
     return {"case": case, "ref": {"rc": ref.returncode, "error": ref.error, "commits": len(ref.commit_points),
                                   "stages": len(ref.stage_points), "executed": ref.executed(),
